@@ -8,6 +8,9 @@ Binding: recorder c19 generates image descriptions, serialises them with its own
          symbols / program entry; real files linked by ld.lld (corpus/c19, descriptions taken from
          readelf) go the same way; two-object sets go through ElfLinker.  Trace_C19 compares every
          answer with Load(desc, base).
+Growth:  spec/Loader.tla (+ MC_Loader): Loader::program_verbose / program_recursive_verbose on the
+         real files and on generated code images with a known call graph (checked here against
+         llvm-objdump); the JSON loader against the same Image / entry predicates.
 """
 import json
 import os
@@ -126,6 +129,45 @@ def same_desc(a, b):
     return [k for k in keys if a.get(k) != b.get(k)]
 
 
+_CALL = re.compile(r"^\s*([0-9a-f]+):\s+(calll|callq|call|jal|bl)\s+(0x[0-9a-f]+|\d+)")
+_RET = re.compile(r"^\s*([0-9a-f]+):\s+(retl|retq|ret|jr\s+\$ra|blr)\b")
+
+
+def unlimbs(a):
+    return sum(b << (8 * i) for i, b in enumerate(a))
+
+
+def code_check(path, desc):
+    """The call graph the harness claims for a generated code image (desc["code"]) against an
+    independent disassembler: every function slot (0x40 bytes) must contain exactly the direct
+    calls listed, followed by a return."""
+    p = subprocess.run(["llvm-objdump", "-d", "--no-show-raw-insn", path], stdout=subprocess.PIPE, stderr=subprocess.PIPE, text=True)
+    if p.returncode != 0:
+        raise core.ToolError("llvm-objdump failed on %s: %s" % (path, p.stderr[:300]))
+    text = [s for s in desc["segs"] if s["type"] == 1][0]
+    lo = unlimbs(text["vaddr"])
+    calls, rets = {}, set()
+    for line in p.stdout.splitlines():
+        m = _CALL.match(line)
+        if m:
+            site = int(m.group(1), 16)
+            t = m.group(3)
+            calls.setdefault(lo + (site - lo) // 0x40 * 0x40, set()).add(int(t, 16) if t.startswith("0x") else int(t))
+        m = _RET.match(line)
+        if m:
+            site = int(m.group(1), 16)
+            rets.add(lo + (site - lo) // 0x40 * 0x40)
+    bad = []
+    for c in desc["code"]:
+        a = unlimbs(c["addr"])
+        want = {unlimbs(t) for t in c["calls"]}
+        if desc["cls"] == 32:
+            want = {t & 0xffffffff for t in want}
+        if calls.get(a, set()) != want or a not in rets:
+            bad.append((hex(a), sorted(want), sorted(calls.get(a, set()))))
+    return bad
+
+
 def writer_check(ctx, n):
     """The harness' ELF writer against readelf: every generated file must be described by
     readelf exactly as the harness describes it (header, program headers and the file bytes
@@ -134,12 +176,19 @@ def writer_check(ctx, n):
     shutil.rmtree(d, ignore_errors=True)
     p = ctx.record("c19", ["--mode", "dump", "--n", n, "--dir", d], "dump.ndjson")
     items = ctx.read_ndjson(p)
+    ncode = 0
     for it in items:
         diff = same_desc(describe(it["path"]), {k: v for k, v in it["desc"].items()})
         if diff:
             raise core.ToolError("ELF writer disagrees with readelf on %s in %s" % (diff, it["path"]))
+        if "code" in it["desc"]:
+            bad = code_check(it["path"], it["desc"])
+            if bad:
+                raise core.ToolError("generated code of %s disagrees with llvm-objdump: %s" % (it["path"], bad))
+            ncode += 1
     shutil.rmtree(d, ignore_errors=True)
     ctx.extra["writer_checked_against_readelf"] = len(items)
+    ctx.extra["code_images_checked_against_objdump"] = ncode
     return len(items)
 
 
@@ -163,6 +212,7 @@ def corpus_list(ctx):
 
 # ------------------------------------------------------------------------------------------------
 def mc(ctx):
+    ctx.tlc_mc("MC_Loader", "MC_Loader.cfg", key="MC_Loader N=3")
     if ctx.quick:
         ctx.tlc_mc("MC_Elf", "MC_Elf_small.cfg", key="MC_Elf AddrBits=4 memsz<=2")
     else:
@@ -194,9 +244,23 @@ def attach_sessions(results):
 
 
 def validate(ctx, paths, shards_per=4):
-    shards = []
+    # sessions are independent: deal them round-robin over the shards so that the expensive
+    # kinds (real files, linked sets) spread evenly and only a few JVMs are started
+    sessions = []
     for p in paths:
-        shards += ctx.shard(p, shards_per, by_session=True)
+        with open(p) as f:
+            for l in f:
+                if not l.strip():
+                    continue
+                if '"ev":"begin"' in l or not sessions:
+                    sessions.append([])
+                sessions[-1].append(l)
+    n = max(1, min(shards_per, len(sessions)))
+    shards = [os.path.join(ctx.work, "shard%02d.ndjson" % i) for i in range(n)]
+    for i, sp in enumerate(shards):
+        with open(sp, "w") as f:
+            for ses in sessions[i::n]:
+                f.writelines(ses)
     results = ctx.tlc_trace_many("Trace_C19", shards, timeout=1500, parallel=4 if ctx.quick else 8)
     attach_sessions(results)
     ctx.add_rejects(results)
@@ -207,7 +271,7 @@ def validate(ctx, paths, shards_per=4):
             if e["ev"] == "begin":
                 ctx.traces += 1
                 by_src[e["src"]] = by_src.get(e["src"], 0) + 1
-                if len(ctx.samples) < 3 and e["src"] in ("gen", "link") and by_src[e["src"]] == 2:
+                if len(ctx.samples) < 5 and e["src"] in ("gen", "link", "code", "json") and by_src[e["src"]] == 2:
                     s = dict(e)
                     s.pop("file", None)
                     for o in s.get("objs", []):
@@ -233,9 +297,11 @@ def run(ctx):
         ("c19", ["--mode", "enum", "--maxsz", 1 if q else 3], "enum.ndjson"),
         ("c19", ["--mode", "files", "--list", lp], "files.ndjson"),
         ("c19", ["--mode", "link", "--n", 6 if q else 300, "--dir", os.path.join(ctx.work, "link")], "link.ndjson"),
+        ("c19", ["--mode", "code", "--n", 21 if q else 700], "code.ndjson"),
+        ("c19", ["--mode", "json", "--n", 30 if q else 1500, "--dir", os.path.join(ctx.work, "json")], "json.ndjson"),
     ]
     paths = ctx.record_many(jobs, parallel=4)
-    validate(ctx, paths, 2 if q else 8)
+    validate(ctx, paths, 8 if q else 32)
     ctx.extra["bases"] = "0, 0x10000, 2^31 (ELF32) / 2^40 (ELF64)"
     ctx.extra["exhaustive_scope"] = ("every layout of two PT_LOADs with memsz <= %d sliding over each other (all filesz <= memsz), "
                                      "at three bases" % (1 if q else 3))
